@@ -83,6 +83,16 @@ func classifyPath(d *declInfo, e ast.Expr, defs map[types.Object]ast.Expr, depth
 		if f == nil {
 			break
 		}
+		// a helper of the storage package that returns a path (fs.entryPath(name)): the path it builds,
+		// with its parameters bound at the call sites
+		if f.Pkg() != nil && f.Pkg() == d.pkg.Types && theProgram != nil {
+			if hfd, hpk := theProgram.FuncDecl(objName(f)); hfd != nil && hfd.Body != nil && len(hfd.Body.List) == 1 {
+				if rs, isRet := hfd.Body.List[0].(*ast.ReturnStmt); isRet && len(rs.Results) == 1 {
+					hd := &declInfo{fd: hfd, pkg: hpk, obj: f, name: objName(f)}
+					return classifyPath(hd, rs.Results[0], singleDefs(hpk, hfd.Body), depth+1)
+				}
+			}
+		}
 		switch f.FullName() {
 		case "path/filepath.Join":
 			if len(x.Args) == 2 && (isDir(x.Args[0]) || classifyPath(d, x.Args[0], defs, depth+1).kind == "dir") {
